@@ -384,6 +384,77 @@ def build_synth(spec: dict):
     return FuncIR(FuncDecl(spec["name"], None, "synthetic", sig), args, blocks)
 
 
+def dump_rich(d: "PassDumper", name: str, fn, labels: dict) -> None:
+    """Dump for the check-inserting passes: like PassDumper.dump plus what the parent's normaliser needs
+    (register names, which ops are LoadErrorValue(undefines) / bitmap arithmetic / UnboundLocalError raises,
+    branch variants).  LoadAddress of a register is not a read of it (uninit.py exempts it)."""
+    from mypyc.ir import ops as O
+    w = d.out.write
+    LIT = (O.Integer, O.Float, O.CString, O.Undef)
+
+    def operand(v) -> str:
+        if isinstance(v, LIT):
+            return f"k{d.sym('LIT ' + type(v).__name__ + ' ' + repr(getattr(v, 'value', None)) + ' ' + repr(v.type))}"
+        return f"v{d.vid(v)}"
+
+    def shape(x, depth=0) -> str:
+        if isinstance(x, O.Value):
+            return "%"
+        if isinstance(x, O.BasicBlock):
+            return "<block>"
+        if isinstance(x, (list, tuple)) and depth < 4:
+            return "[" + ",".join(shape(y, depth + 1) for y in x) + "]"
+        return repr(x)
+
+    def describe(op) -> str:
+        return type(op).__name__ + " " + " ".join(f"{k}={shape(v)}" for k, v in sorted(vars(op).items()))
+    w(f"F {re.sub(chr(92) + 's+', '_', name)}\n")
+    w("A " + " ".join(str(d.vid(a)) for a in fn.arg_regs) + "\n")
+    regs = []
+    for b in fn.blocks:
+        for op in b.ops:
+            for v in list(op.sources()) + ([op.dest] if isinstance(op, (O.Assign, O.AssignMulti)) else []):
+                if isinstance(v, O.Register) and v not in regs:
+                    regs.append(v)
+    for r in list(fn.arg_regs) + regs:
+        w(f"N {d.vid(r)} {r.name or '-'} {int(bool(r.name))} {int(r.type.error_overlap)}\n")
+
+    def lab(b) -> int:
+        return labels.get(id(b), 0)
+    for b in fn.blocks:
+        w(f"B {lab(b)} {lab(b.error_handler) if b.error_handler is not None else 0}\n")
+        for op in b.ops:
+            if isinstance(op, O.Goto):
+                w(f"g {lab(op.label)}\n")
+            elif isinstance(op, O.Branch):
+                sy = d.sym(f"BR {op.op} {op.traceback_entry!r} {int(op.rare)} {op.line}")
+                w(f"c {sy} {int(op.negated)} {operand(op.value)} {lab(op.true)} {lab(op.false)} "
+                  f"{'iserr' if op.op == O.Branch.IS_ERROR else 'bool'} {int(op.traceback_entry is not None)}\n")
+            elif isinstance(op, O.Return):
+                w(f"r {operand(op.value)}\n")
+            elif isinstance(op, O.Unreachable):
+                w("u\n")
+            elif isinstance(op, O.Assign):
+                w(f"a {d.vid(op.dest)} {operand(op.src)}\n")
+            else:
+                tag = "-"
+                srcs = list(op.sources())
+                if isinstance(op, O.LoadErrorValue) and op.undefines:
+                    tag = "undef"
+                elif isinstance(op, O.IntOp) and isinstance(op.rhs, O.Integer) and op.op in (O.IntOp.AND, O.IntOp.OR):
+                    tag = ("and:" if op.op == O.IntOp.AND else "or:") + str(op.rhs.value)
+                elif isinstance(op, O.ComparisonOp) and op.op == O.ComparisonOp.EQ and isinstance(op.rhs, O.Integer) and op.rhs.value == 0:
+                    tag = "eqz"
+                elif isinstance(op, O.RaiseStandardError) and op.class_name == O.RaiseStandardError.UNBOUND_LOCAL_ERROR:
+                    tag = "raise_unbound"
+                elif isinstance(op, O.LoadAddress):
+                    srcs = []
+                dest = op.dest if isinstance(op, O.AssignMulti) else op
+                w(f"O {d.vid(dest)} {d.sym(describe(op))} {tag} " + " ".join(operand(x) for x in srcs) + "\n")
+    w("E\n")
+    d.n += 1
+
+
 def dump_passes(job: dict) -> None:
     from mypy.errors import CompileError
     from mypyc.codegen import emitmodule
@@ -439,6 +510,27 @@ def dump_passes(job: dict) -> None:
             if txt:
                 txt.write(f"### {kind} after {fname(fn)}\n" + "\n".join(format_func(fn)) + "\n")
         return wrapped
+    real_un = emitmodule.insert_uninit_checks
+
+    def wrapped_uninit(fn, strict) -> None:
+        from mypyc.analysis.dataflow import cleanup_cfg
+        if not job.get("uninit", True):
+            return real_un(fn, strict)
+        cleanup_cfg(fn.blocks)        # the pass's own first step (idempotent): BEFORE = what the splitting sees
+        d.begin_pair()
+        out.write("P uninit\n")
+        labels = {id(b): i + 1 for i, b in enumerate(fn.blocks)}
+        d.keep.extend(fn.blocks)
+        dump_rich(d, fname(fn), fn, labels)
+        real_un(fn, strict)
+        k = len(labels)
+        for b in fn.blocks:           # the pass keeps the original block objects as heads and adds new blocks
+            if id(b) not in labels:
+                k += 1
+                labels[id(b)] = k
+        d.keep.extend(fn.blocks)
+        dump_rich(d, fname(fn), fn, labels)
+    emitmodule.insert_uninit_checks = wrapped_uninit
     emitmodule.do_copy_propagation = wrap("copyprop", real_cp)
     emitmodule.do_flag_elimination = wrap("flagelim", real_fe)
     cache: dict[str, Any] = {}
